@@ -38,7 +38,7 @@ pub enum Op {
 
 pub struct PredInfo {
     pub name: &'static str,
-    pub p: &'static Predictor,
+    pub p: Box<Predictor>,
     pub predict_tags: bool,
     pub store: bool,
 }
@@ -120,7 +120,7 @@ pub fn model_tags1() -> ModelSpec {
     m
 }
 
-fn leak_pred(spec: &ModelSpec, predict_tags: bool, store: bool) -> &'static Predictor {
+fn leak_pred(spec: &ModelSpec, predict_tags: bool, store: bool) -> Box<Predictor> {
     let model = spec.to_model().unwrap_or_else(|e| machinery_error(&e));
     let mut p = match guard(|| Predictor::new(model, predict_tags)) {
         Ok(Ok(p)) => p,
@@ -130,20 +130,30 @@ fn leak_pred(spec: &ModelSpec, predict_tags: bool, store: bool) -> &'static Pred
     if store {
         p.store_tag_scores(true);
     }
-    Box::leak(Box::new(p))
+    Box::new(p)
 }
 
 impl World {
     pub fn new(tier: Tier) -> Self {
+        Self::new_with(tier, None)
+    }
+
+    /// `needed`: build only these predictors for real (the others become cheap placeholders built
+    /// from an empty model; using one of them is a harness bug). Used by the schedule enumerator,
+    /// which needs a fresh (never-used) set of predictors for every schedule.
+    pub fn new_with(tier: Tier, needed: Option<&[usize]>) -> Self {
         let raw = vec!["abab", "a", "あaあa𠀋b", "a\r\nbe\u{301}", "", "a\0b"].into_iter().map(String::from).collect();
         let tok = vec!["ab a", "a/X b/Y/Z", "あ/T a\\ b", "a//x\\/ b", " a", "a  b", "a ", "a /x", "", "\\", "a\0"].into_iter().map(String::from).collect();
         let part = vec!["a|b-a", "a/X|b a/Y/Z", "あ-a b", "a//X-b/Y", "a|", "a?b", "", "\0"].into_iter().map(String::from).collect();
+        let want = |i: usize| needed.map_or(true, |n| n.contains(&i));
+        let empty = ModelSpec { char_window_size: 1, type_window_size: 1, ..Default::default() };
+        let mk = |i: usize, spec: ModelSpec, predict_tags: bool, store: bool| if want(i) { leak_pred(&spec, predict_tags, store) } else { leak_pred(&empty, predict_tags, store) };
         let preds = vec![
-            PredInfo { name: "A(no tag models)", p: leak_pred(&model_plain(), false, false), predict_tags: false, store: false },
-            PredInfo { name: "B(2 categories, predict_tags)", p: leak_pred(&model_tags2(), true, false), predict_tags: true, store: false },
-            PredInfo { name: "B'(2 categories, predict_tags=false)", p: leak_pred(&model_tags2(), false, false), predict_tags: false, store: false },
-            PredInfo { name: "C(1 category, store scores)", p: leak_pred(&model_tags1(), true, true), predict_tags: true, store: true },
-            PredInfo { name: "D(predict_tags, no tag models)", p: leak_pred(&model_plain(), true, false), predict_tags: true, store: false },
+            PredInfo { name: "A(no tag models)", p: mk(0, model_plain(), false, false), predict_tags: false, store: false },
+            PredInfo { name: "B(2 categories, predict_tags)", p: mk(1, model_tags2(), true, false), predict_tags: true, store: false },
+            PredInfo { name: "B'(2 categories, predict_tags=false)", p: mk(2, model_tags2(), false, false), predict_tags: false, store: false },
+            PredInfo { name: "C(1 category, store scores)", p: mk(3, model_tags1(), true, true), predict_tags: true, store: true },
+            PredInfo { name: "D(predict_tags, no tag models)", p: mk(4, model_plain(), true, false), predict_tags: true, store: false },
         ];
         let mut rules = hashbrown::HashMap::new();
         rules.insert("a".to_string(), vec![Some("R1".to_string()), None, Some("R3".to_string())]);
@@ -194,7 +204,8 @@ impl World {
     }
 
     /// Applies one operation to the real object. `Ok(Some(ok))` for updates.
-    pub fn apply(&self, s: &mut Sentence<'static, 'static>, op: &Op) -> Result<Option<bool>, String> {
+    /// (`'w`: the sentence may link to predictors owned by this world)
+    pub fn apply<'w>(&'w self, s: &mut Sentence<'static, 'w>, op: &Op) -> Result<Option<bool>, String> {
         guard(|| match *op {
             Op::UpRaw(i) => Some(s.update_raw(self.raw[i].clone()).is_ok()),
             Op::UpTok(i) => Some(s.update_tokenized(&self.tok[i]).is_ok()),
@@ -219,7 +230,7 @@ impl World {
     }
 
     /// The matching fresh constructor.
-    pub fn construct(&self, op: &Op) -> Result<Option<Sentence<'static, 'static>>, String> {
+    pub fn construct<'w>(&'w self, op: &Op) -> Result<Option<Sentence<'static, 'w>>, String> {
         guard(|| match *op {
             Op::UpRaw(i) => Sentence::from_raw(self.raw[i].clone()).ok(),
             Op::UpTok(i) => Sentence::from_tokenized(&self.tok[i]).ok(),
@@ -300,7 +311,7 @@ pub fn history(nodes: &[Node], mut i: usize) -> Vec<Op> {
 }
 
 /// Replays a history on a fresh default sentence. Err if any step panics.
-pub fn replay_history(w: &World, h: &[Op]) -> Result<Sentence<'static, 'static>, String> {
+pub fn replay_history<'w>(w: &'w World, h: &[Op]) -> Result<Sentence<'static, 'w>, String> {
     let mut s = Sentence::default();
     for op in h {
         w.apply(&mut s, op)?;
@@ -355,7 +366,7 @@ pub struct Found {
 }
 
 /// C05 oracle for one transition `op` out of a state (sentence `s` is the state AFTER the op).
-pub fn oracle_c05(w: &World, op: &Op, res: &Result<Option<bool>, String>, s: &Sentence<'static, 'static>, before: &Obs) -> Vec<Found> {
+pub fn oracle_c05<'w>(w: &'w World, op: &Op, res: &Result<Option<bool>, String>, s: &Sentence<'static, 'w>, before: &Obs) -> Vec<Found> {
     let mut out = vec![];
     let name = w.op_name(op);
     match (op, res) {
@@ -492,7 +503,7 @@ impl FreshCache {
 
 /// C08 oracle: state `s` reached by `history`, whose suffix since the last successful update is
 /// `book.suffix`; compare with the fresh sentence after the same suffix.
-pub fn oracle_c08(w: &World, fresh: &FreshCache, book: &Book, s: &Sentence<'static, 'static>) -> Vec<Found> {
+pub fn oracle_c08<'w>(w: &'w World, fresh: &FreshCache, book: &Book, s: &Sentence<'static, 'w>) -> Vec<Found> {
     let mut out = vec![];
     let Some((upd, suffix)) = &book.suffix else { return out };
     let Some(want) = fresh.get(w, upd, suffix) else { return out };
